@@ -224,8 +224,11 @@ def run_unit(unit_name, tier, seed, only_props=None, want_playback=True, log=sys
             if entry["status"] == "failed":
                 failed.append(entry)
             result["harnesses"].append(entry)
+        if hasattr(unit, "post_process"):
+            result["harnesses"] = unit.post_process(result["harnesses"])
+            failed = [e for e in result["harnesses"] if e["status"] == "failed"]
         # counterexamples for failing harnesses (sequential, bounded in number)
-        if want_playback and not hasattr(unit, "native_replay"):
+        if want_playback and (not hasattr(unit, "native_replay") or getattr(unit, "WANTS_PLAYBACK_VALUES", False)):
             for entry in failed[:(2 if tier == 'quick' else 8)]:
                 cmd = kani_cmd([entry["name"]], flags, entry.get("timeout", 120), 1, playback=True)
                 rc, out, secs = run(cmd, cwd=sc.repo, timeout=entry.get("timeout", 120) + 300, rss_kill_gb=RSS_GB)
